@@ -49,6 +49,8 @@ type Params struct {
 	MutBit  int  // bit index inside the mutated region (mut != none), taken modulo the region size
 	AltBit  int  // for *Alter = memberBit: -1 = the canonical harmless digit flip; else bit index modulo member size
 	WallNow bool // true: validity windows are centred on the wall clock (for Options.Now == nil runs)
+	// Header / Body (optional): use these bytes as the quote header (48) and TD body (584) instead of random ones
+	Header, Body []byte
 	// LeafExpiresIn (WallNow only): the PCK leaf's notAfter is that far in the future instead of a year away
 	LeafExpiresIn time.Duration
 }
@@ -364,6 +366,17 @@ func Build(w World, p Params) *Concrete {
 	} else {
 		svn[1] = byte(1 + rng.Intn(3))
 		svn[0] = byte(5 + rng.Intn(100))
+	}
+	if p.Body != nil { // a given TD body (e.g. the one the sample event log belongs to); the world's modBranch must agree with it
+		q.Body = append([]byte{}, p.Body...)
+		svn = FieldOf("body", "tee_tcb_svn", q.Body)
+		if (svn[1] == 0) != (mod == "none") {
+			c.Unrealizable = "given TD body disagrees with modBranch"
+			return c
+		}
+	}
+	if p.Header != nil {
+		q.Header = append([]byte{}, p.Header...)
 	}
 	// keep XFAM / TD_ATTRIBUTES policy-neutral (all verify drivers ignore them)
 
